@@ -1,8 +1,10 @@
 package props
 
 import (
+	"context"
 	"encoding/json"
 	"fmt"
+	"reflect"
 	"strings"
 	"testing"
 
@@ -33,7 +35,13 @@ type HistCase struct {
 	Vars   map[string]lang.Value `json:"vars,omitempty"`
 	Objs   []*eng.ObjSpec        `json:"objs"`
 	Steps  []HistStep            `json:"steps"`
-	Msg    string                `json:"message,omitempty"`
+	// Shared: "" = a new object per run; "map" / "ptr" = ONE map / struct
+	// pointer is handed to every run and changed in place between runs.
+	Shared string `json:"shared,omitempty"`
+	// Cancelable: the evaluators are prepared with a context that a
+	// "cancel" step cancels (deterministic, no clocks involved).
+	Cancelable bool   `json:"cancelable,omitempty"`
+	Msg        string `json:"message,omitempty"`
 }
 
 func constPool(r *eng.Runner) string {
@@ -45,6 +53,56 @@ func constPool(r *eng.Runner) string {
 	return b.String()
 }
 
+// preparedCtx is prepared() with a caller-supplied context.
+func preparedCtx(ctx context.Context, script string, vars map[string]lang.Value, noOpt bool) (*eng.Runner, error) {
+	r := eng.NewRunner(script)
+	r.E.SetContext(ctx)
+	for _, k := range sortedKeys(vars) {
+		r.E.SetVariable(k, eng.ToObject(vars[k]))
+	}
+	err, pan := r.Prepare(noOpt)
+	if pan != nil {
+		return nil, fmt.Errorf("Prepare panicked: %v", pan)
+	}
+	return r, err
+}
+
+// sharedObject hands out one object that is changed in place.
+type sharedObject struct {
+	kind string
+	m    map[string]interface{}
+	ptr  interface{}
+}
+
+func (s *sharedObject) set(o *eng.ObjSpec) interface{} {
+	switch s.kind {
+	case "map":
+		if s.m == nil {
+			s.m = map[string]interface{}{}
+		}
+		for k := range s.m {
+			delete(s.m, k)
+		}
+		c := *o
+		c.Mode = "map"
+		for k, v := range c.Build().(map[string]interface{}) {
+			s.m[k] = v
+		}
+		return s.m
+	case "ptr":
+		c := *o
+		c.Mode = "ptr"
+		fresh := c.Build()
+		if s.ptr == nil || reflect.TypeOf(s.ptr) != reflect.TypeOf(fresh) {
+			s.ptr = fresh
+			return s.ptr
+		}
+		reflect.ValueOf(s.ptr).Elem().Set(reflect.ValueOf(fresh).Elem())
+		return s.ptr
+	}
+	return o.Build()
+}
+
 type histStats struct {
 	runs, abnormal, followUps int
 }
@@ -53,7 +111,18 @@ type histStats struct {
 // on a fresh evaluator holding the same variables.
 func runHistory(c *HistCase) (histStats, error) {
 	var st histStats
-	used, err := prepared(c.Script, c.Vars, c.NoOpt)
+	mk := func(vars map[string]lang.Value) (*eng.Runner, error) { return prepared(c.Script, vars, c.NoOpt) }
+	cancel := func() {}
+	if c.Cancelable {
+		ctx, cf := context.WithCancel(context.Background())
+		cancel = cf
+		defer cf()
+		mk = func(vars map[string]lang.Value) (*eng.Runner, error) {
+			return preparedCtx(ctx, c.Script, vars, c.NoOpt)
+		}
+	}
+	shared := &sharedObject{kind: c.Shared}
+	used, err := mk(c.Vars)
 	if err != nil {
 		return st, nil // rejected script: nothing to compare
 	}
@@ -63,19 +132,28 @@ func runHistory(c *HistCase) (histStats, error) {
 		switch s.Op {
 		case "set":
 			used.E.SetVariable(s.Name, eng.ToObject(s.V))
+		case "cancel":
+			cancel()
 		case "run":
 			before, gerr := used.Globals()
 			if gerr != nil {
 				return st, fmt.Errorf("step %d: %v", si, gerr)
 			}
 			delete(before, "OPTIMIZE")
-			fresh, ferr := prepared(c.Script, before, c.NoOpt)
+			fresh, ferr := mk(before)
 			if ferr != nil {
 				return st, fmt.Errorf("step %d: fresh evaluator rejected the script: %v", si, ferr)
 			}
 			obj := c.Objs[s.Obj%len(c.Objs)]
-			a := used.Execute(obj.Build())
-			b := fresh.Execute(obj.Build())
+			var oa, ob interface{}
+			if c.Shared != "" {
+				oa = shared.set(obj)
+				ob = oa
+			} else {
+				oa, ob = obj.Build(), obj.Build()
+			}
+			a := used.Execute(oa)
+			b := fresh.Execute(ob)
 			st.runs++
 			if sawAbnormal {
 				st.followUps++
@@ -83,8 +161,8 @@ func runHistory(c *HistCase) (histStats, error) {
 			if a.Panic != nil || b.Panic != nil {
 				return st, fmt.Errorf("step %d: panic escaped: used=%v fresh=%v", si, a.Panic, b.Panic)
 			}
-			if isTimeout(a.Err) || isTimeout(b.Err) {
-				return st, nil // inconclusive
+			if !c.Cancelable && (isTimeout(a.Err) || isTimeout(b.Err)) {
+				return st, nil // the 2 s safety deadline: inconclusive
 			}
 			if (a.Err == nil) != (b.Err == nil) {
 				return st, fmt.Errorf("step %d (run on object %d): used evaluator err=%v value=%s; fresh evaluator with the same variables err=%v value=%s", si, s.Obj, a.Err, a.Val.Describe(), b.Err, b.Val.Describe())
@@ -188,6 +266,129 @@ func TestC07(t *testing.T) {
 				}
 			}
 			return map[string]interface{}{"script": cc.Script, "history": steps, "abnormal_runs": st.abnormal}
+		})
+	})
+}
+
+// ---- fault histories ----
+
+var faultModes = []string{"ok", "ok", "ok", "ok", "panic", "mod0", "div0", "type", "arity", "unknown", "index", "loopret", "deep-panic", "deep-mod0", "void", "panic", "mod0", "loopret", "ok", "ok", "type", "arity", "deep-panic", "runaway"}
+
+const faultScript = `
+function helper(a) { return a + 1; }
+function nothing() { seen = Name; }
+function spin(n) { return spin(n + 1); }
+function work(v, mode) {
+  if ( mode == "runaway" ) { return spin(0); }
+  local acc;
+  acc = 0;
+  foreach it in Items { acc = acc + len(string(it)); }
+  if ( mode == "panic" ) { panic("boom"); }
+  if ( mode == "mod0" ) { return v % Zero; }
+  if ( mode == "div0" ) { return v / Zero; }
+  if ( mode == "type" ) { return v + "s"; }
+  if ( mode == "arity" ) { return helper(); }
+  if ( mode == "unknown" ) { return nosuch(v); }
+  if ( mode == "index" ) { return Items[0][0][0]; }
+  if ( mode == "void" ) { return nothing(); }
+  if ( mode == "loopret" ) {
+    foreach x in Items { foreach i, y in Items { if ( y == Pick ) { return [x, i, acc]; } } }
+  }
+  if ( mode == "deep-panic" ) { return outer(v, "panic"); }
+  if ( mode == "deep-mod0" ) { return [1, outer(v, "mod0")]; }
+  return [v * 2, acc];
+}
+function outer(v, mode) {
+  foreach lv in [1] {
+    if ( Depth > 1 ) { return ["o", work(v, mode)]; }
+  }
+  return work(v, mode);
+}
+count = count + 1;
+r = outer(Value, Mode);
+last = Name;
+return [r, Name, len(Items), count, Extra, Flag ? "set" : "unset"];
+`
+
+func drawFaultObject(rt *rapid.T) *eng.ObjSpec {
+	items := lang.Array()
+	for i := 0; i < rapid.IntRange(0, 4).Draw(rt, "nitems"); i++ {
+		items.A = append(items.A, gen.Scalar(rt, "item", lang.KInt, lang.KString))
+	}
+	pick := lang.Value(lang.Int(rapid.Int64Range(0, 3).Draw(rt, "pick")))
+	if len(items.A) > 0 && rapid.Bool().Draw(rt, "pickpresent") {
+		pick = items.A[gen.Uniform(rt, "pickidx", len(items.A))]
+	}
+	o := &eng.ObjSpec{Mode: "map", Fields: []eng.Field{
+		{Name: "Mode", V: lang.Str(rapid.SampledFrom(faultModes).Draw(rt, "mode"))},
+		{Name: "Value", V: lang.Int(rapid.Int64Range(-3, 40).Draw(rt, "value"))},
+		{Name: "Name", V: lang.Str(rapid.SampledFrom([]string{"ann", "bob", "cy", "", "狐"}).Draw(rt, "name"))},
+		{Name: "Items", V: items},
+		{Name: "Zero", V: lang.Int(0)},
+		{Name: "Pick", V: pick},
+		{Name: "Depth", V: lang.Int(rapid.Int64Range(1, 3).Draw(rt, "depth"))},
+		{Name: "Extra", V: gen.Scalar(rt, "extra", lang.KInt, lang.KString, lang.KBool)},
+		{Name: "Flag", V: lang.Bool(rapid.Bool().Draw(rt, "flag"))},
+	}}
+	return o
+}
+
+func TestC07Faults(t *testing.T) {
+	defer silenceAs("faults")()
+	col := evid.New("C07", "faults", "")
+	maxSteps := scale(10, 24)
+	rapidCheck(t, col, func(rt *rapid.T) {
+		c := &HistCase{Prop: "C07", Kind: "history", Script: faultScript, Vars: map[string]lang.Value{"count": lang.Int(0)}, NoOpt: rapid.Bool().Draw(rt, "noopt")}
+		c.Shared = rapid.SampledFrom([]string{"", "", "map", "ptr"}).Draw(rt, "shared")
+		c.Cancelable = gen.Uniform(rt, "cancelable", 4) == 0
+		mode := "map"
+		if c.Shared == "" {
+			mode = rapid.SampledFrom([]string{"map", "struct", "ptr"}).Draw(rt, "objmode")
+		}
+		nobj := rapid.IntRange(2, 5).Draw(rt, "nobj")
+		for i := 0; i < nobj; i++ {
+			o := drawFaultObject(rt)
+			o.Mode = mode
+			c.Objs = append(c.Objs, o)
+		}
+		n := rapid.IntRange(2, maxSteps).Draw(rt, "nsteps")
+		cancelled := false
+		for i := 0; i < n; i++ {
+			switch {
+			case c.Cancelable && !cancelled && gen.Uniform(rt, "cancelnow", 5) == 0:
+				c.Steps = append(c.Steps, HistStep{Op: "cancel"})
+				cancelled = true
+			case gen.Uniform(rt, "setstep", 8) == 0:
+				c.Steps = append(c.Steps, HistStep{Op: "set", Name: rapid.SampledFrom([]string{"count", "last", "seen", "acc", "v"}).Draw(rt, "setname"), V: lang.Int(rapid.Int64Range(0, 99).Draw(rt, "setval"))})
+			default:
+				c.Steps = append(c.Steps, HistStep{Op: "run", Obj: gen.Uniform(rt, "objidx", nobj)})
+			}
+		}
+		st, err := runHistory(c)
+		if err != nil {
+			c.Msg = err.Error()
+			violation(rt, "C07", c, "%v", err)
+		}
+		col.ClassN("runs", int64(st.runs))
+		col.ClassN("abnormal-runs", int64(st.abnormal))
+		col.Class("shared:" + c.Shared)
+		if c.Cancelable {
+			col.Class("cancelable-context")
+		}
+		cc := c
+		col.Case(fmt.Sprint(c.Objs, c.Steps, c.NoOpt, c.Shared, c.Cancelable), st.followUps > 0, func() interface{} {
+			var steps []string
+			for _, s := range cc.Steps {
+				switch s.Op {
+				case "run":
+					steps = append(steps, fmt.Sprintf("run(obj%d mode=%s)", s.Obj, cc.Objs[s.Obj].Fields[0].V.S))
+				case "set":
+					steps = append(steps, fmt.Sprintf("set(%s=%s)", s.Name, s.V.Describe()))
+				default:
+					steps = append(steps, s.Op)
+				}
+			}
+			return map[string]interface{}{"script": "fault template (see harness/props/c07_test.go faultScript)", "history": steps, "shared_object": cc.Shared, "cancelable": cc.Cancelable}
 		})
 	})
 }
